@@ -267,8 +267,53 @@ def check(run: Run) -> None:
                 raise AnalysisError("model-mismatch", e)
         c05.removal_tables(run, "C04.i", keep={"VALIDATE", "PREPARE", "KEYSET"})
 
+    with run.obligation("C04.k", "K11", "a forwarding output that loses or changes its target reads as modified in that cycle (its value changed): record_target_modified is "
+                        "guarded by whether a target WAS bound, a fact snapshotted BEFORE the (un)bind call - read afterwards it is always false and the change is silent"):
+        OB = "src/hgraph/types/time_series/ts_output/base_view.cpp"
+        cn = R.Canon()
+        n_guard = 0
+        for name in ("TSOutputView::bind_forwarding_target", "TSOutputView::clear_forwarding_target", "TSOutputView::clear_forwarding_target_sampled"):
+            fa = R.fn(run, OB, name)
+            top = fa.body.stmts
+            mut_idx = [i for i, st in enumerate(top) if any(R.callee_name(c) in ("unbind_target_link", "bind_target_link", "unbind") for c in R.calls(st))
+                       and not isinstance(st, C.If)]
+            if not mut_idx:
+                raise AnalysisError("anchor-vanished", f"C04.k: no (un)bind call at the top level of {name}")
+            m_i = mut_idx[-1]
+            snaps = {d.name for i, st in enumerate(top[:m_i]) if isinstance(st, C.Decl) for d in st.decls
+                     if d.name and d.init is not None and any(R.callee_name(c) in ("forwarding_target", "bound") for c in R.calls(d.init) + ([d.init] if isinstance(d.init, C.Call) else []))}
+            recs = [st for st in top[m_i + 1:] if isinstance(st, C.If) and any(R.callee_name(c) == "record_target_modified" for c in R.calls(st.then))]
+            run.count(1, "C04.k")
+            if not recs:
+                run.finding("C04.k", f"{name}:no-modified-record", f"{name} changes the forwarding target without recording the endpoint as modified", loc=fa.loc(top[m_i]))
+                continue
+            n_guard += 1
+            cond = recs[0].cond
+            uses_snap = any(isinstance(x, C.Id) and x.name in snaps for x in cond.walk())
+            late = []
+            for c in R.calls(cond):
+                if R.callee_name(c) == "bound":      # (a late forwarding_target() is legitimate: bind compares the NEW target with the snapshot)
+                    root = c.fn
+                    while isinstance(root, C.Member):
+                        root = root.obj
+                    if not (isinstance(root, C.Id) and root.name in snaps):
+                        late.append(cn(c))
+            if not uses_snap or late:
+                run.finding("C04.k", f"{name}:boundness-read-after-unbind", f"{name}: the guard of record_target_modified ({cn(cond)[:120]}) does not use a boundness snapshot "
+                            f"taken before the (un)bind call{' and reads ' + ', '.join(late) + ' afterwards' if late else ''}: clearing a bound target no longer ticks the "
+                            "endpoint (value gone, modified false, last_modified_time stale, observers not notified)", loc=fa.loc(recs[0]))
+        run.sites(n_guard, 3, "guarded record_target_modified after a forwarding (un)bind")
+
+    with run.obligation("C04.j", "K1", "a consumer's child view reports the child's own last_modified_time: the link time is blended in only at the root of a link (the "
+                        "input accessor tables, shared with C13.c)"):
+        from . import c13
+        R.share(run, "C04.j", c13, ["C13.c"])
+
 
 VARIANTS = [
+    {"id": "k-clear-reads-bound-after-unbind", "expect": "C04.k", "edits": [{"file": "src/hgraph/types/time_series/ts_output/base_view.cpp", "find": "        const TSOutputHandle previous = forwarding_target();\n        detail::unbind_target_link(data_);\n        if (evaluation_time_ != MIN_DT && previous.bound())\n        {\n            detail::mutable_target_link_storage(data_)->record_target_modified(evaluation_time_);", "replace": "        auto *link = detail::mutable_target_link_storage(data_);\n        link->unbind();\n        if (evaluation_time_ != MIN_DT && link->bound())\n        {\n            link->record_target_modified(evaluation_time_);"}]},
+    {"id": "k-sampled-clear-reads-bound-late", "expect": "C04.k", "edits": [{"file": "src/hgraph/types/time_series/ts_output/base_view.cpp", "find": "        const bool was_bound = link->bound();\n        link->unbind();\n        if (was_bound) { link->record_target_modified(evaluation_time_); }", "replace": "        link->unbind();\n        const bool was_bound = link->bound();\n        if (was_bound) { link->record_target_modified(evaluation_time_); }"}]},
+    {"id": "k-twin-bool-snapshot", "expect": None, "edits": [{"file": "src/hgraph/types/time_series/ts_output/base_view.cpp", "find": "        const TSOutputHandle previous = forwarding_target();\n        detail::unbind_target_link(data_);\n        if (evaluation_time_ != MIN_DT && previous.bound())", "replace": "        const bool had_target = forwarding_target().bound();\n        detail::unbind_target_link(data_);\n        if (evaluation_time_ != MIN_DT && had_target)"}]},
     {"id": "a-rewind", "expect": "C04.a", "edits": [{"file": TYPES, "find": "if (modified_time <= last_modified_time) { return false; }", "replace": "if (modified_time == last_modified_time) { return false; }"}]},
     {"id": "a-renotify", "expect": "C04.a", "edits": [{"file": TYPES, "find": "if (modified_time <= last_modified_time) { return false; }", "replace": "if (modified_time <= last_modified_time) { observers.notify(modified_time); return false; }"}]},
     {"id": "a-notify-before-store", "expect": "C04.a", "edits": [{"file": TYPES, "find": "        last_modified_time = modified_time;\n        observers.notify(modified_time);", "replace": "        observers.notify(modified_time);\n        last_modified_time = modified_time;"}]},
